@@ -177,11 +177,14 @@ def mk_take(tg, k0, k1, value, tz=None):
     return {'start': [s], 'end': [e], 'values': [value]}
 
 
-def pf_multicommodity(D, T=3, freq='h', unit='h', factors=(1.0, 0.5), take=None, win=None):
+def pf_multicommodity(D, T=3, freq='h', unit='h', factors=(1.0, 0.5), take=None, win=None, node_names=None):
     """MultiCommodityContract delivering to A and B, one market on each; optional min/max take period (k0,k1)"""
     eao = lift.import_eao()
     tg = grid(T, freq, unit)
     nds = nodes(*['A', 'B', 'C', 'E'][:len(factors)])       # one node per commodity (2 by default; 3 or 4 with longer `factors`)
+    if node_names is not None:      # a node may be listed twice (e.g. own consumption booked at the node delivered to)
+        byname = {}
+        nds = [byname.setdefault(n_, nodes(n_)[0]) for n_ in node_names]
     nA, nB = nds[0], nds[1]
     f = [D.coef('mc_f%d' % i, v) for i, v in enumerate(factors)]
     kw = {}
@@ -194,7 +197,7 @@ def pf_multicommodity(D, T=3, freq='h', unit='h', factors=(1.0, 0.5), take=None,
                                            extra_costs=D('mc_ec', lo=0), factors_commodities=f, start=s, end=e, **kw)
     m1 = mk_market(D, 'mA', nA, T, 'p')
     m2 = mk_market(D, 'mB', nB, T, 'q')
-    more = [mk_market(D, 'm' + n_.name, n_, T, 'q') for n_ in nds[2:]]
+    more = [mk_market(D, 'm' + n_.name, n_, T, 'q') for n_ in nds[2:] if n_ is not nA and n_ is not nB]
     pf = eao.portfolio.Portfolio([m1, mc, m2] + more)
     return Shape(pf, tg, prices_for(D, ['p', 'q', 'r'], T))
 
